@@ -1096,6 +1096,7 @@ def static_atomicity():
         return ['class TransferCoordinator not found in futures.py']
     problems = []
     found_writes = 0
+    call_sites = {}
     LOCK, STATE_ATTRS, STATE_READS, GUARDED_METHODS = _static_names()
 
     def is_self_lock(e):
@@ -1122,7 +1123,7 @@ def static_atomicity():
             prev_acquire = is_acquire(st)
 
     def visit(node, locked, fname):
-        nonlocal found_writes
+        nonlocal found_writes, call_sites
         if isinstance(node, ast.With):
             inner = locked or is_state_lock(node)
             visit_body(node.body, inner, fname)
@@ -1150,14 +1151,28 @@ def static_atomicity():
                 isinstance(node.value, ast.Name) and node.value.id == 'self':
             problems.append(f'{fname}: self.{node.attr} is read at line {node.lineno} outside `with self.{LOCK}` '
                             '(check-then-act: the decision can be stale when the write happens)')
+        if isinstance(node, ast.Call) and isinstance(node.func, ast.Attribute) and isinstance(node.func.value, ast.Name) \
+                and node.func.value.id == 'self':
+            call_sites.setdefault(node.func.attr, []).append(locked)
         if isinstance(node, ast.Call) and isinstance(node.func, ast.Attribute) and node.func.attr == 'announce_done' and locked:
             problems.append(f'{fname}: announce_done() called at line {node.lineno} while holding self.{LOCK}')
         for ch in ast.iter_child_nodes(node):
             visit(ch, locked, fname)
 
-    for fn in cls[0].body:
-        if isinstance(fn, ast.FunctionDef) and fn.name != '__init__':
-            visit_body(fn.body, False, fn.name)
+    # A private helper that is called only with the state lock held ("_xyz_locked") is part of
+    # its callers' critical sections: iterate until the set of such helpers is stable.
+    methods = {fn.name: fn for fn in cls[0].body if isinstance(fn, ast.FunctionDef)}
+    held = set()
+    for _ in range(6):
+        problems, found_writes, call_sites = [], 0, {}
+        for name, fn in methods.items():
+            if name != '__init__':
+                visit_body(fn.body, name in held, name)
+        new = {m for m, sites in call_sites.items()
+               if m in methods and m.startswith('_') and not m.startswith('__') and sites and all(sites)}
+        if new == held:
+            break
+        held = new
     if found_writes < 6:
         problems.append(f'only {found_writes} state writes recognised in TransferCoordinator (expected the 8 of set_result/set_exception/cancel/_transition): the static check no longer understands the class')
     return problems
